@@ -50,7 +50,9 @@ const ORF_CONFIGS: &[OrfConfig] = &[
 ];
 
 fn orf_min_lens(tier: Tier) -> &'static [usize] {
-    tier.pick(&[0, 3, 4, 6, 7, 10], &[0, 1, 2, 3, 4, 5, 6, 7, 9, 10, 12, 13])
+    // the huge values: no frame can be that long, nothing may be reported, and the length test
+    // must not overflow
+    tier.pick(&[0, 3, 4, 6, 7, 10, usize::MAX - 3, usize::MAX], &[0, 1, 2, 3, 4, 5, 6, 7, 9, 10, 12, 13, usize::MAX / 2 + 1, usize::MAX - 3, usize::MAX - 1, usize::MAX])
 }
 
 /// every start codon position with the end (exclusive) of the first in-frame stop codon after it
@@ -78,7 +80,7 @@ fn check_orf(seq: &[u8], starts: &[Codon], stops: &[Codon], min_len: usize, cc: 
     // definition of the statement: a frame more than two bases longer than the minimum must be
     // reported exactly once; a reported frame must be at least min_len long (frames with
     // min_len <= length <= min_len + 2 may or may not be reported)
-    let required: Vec<(usize, usize)> = cands.iter().cloned().filter(|&(s, e)| e - s > min_len + 2).collect();
+    let required: Vec<(usize, usize)> = cands.iter().cloned().filter(|&(s, e)| e - s > min_len.saturating_add(2)).collect();
     let shared_stop = required.iter().enumerate().any(|(i, a)| required[..i].iter().any(|b| b.1 == a.1));
     let two_frames = required.iter().any(|a| a.0 % 3 != required[0].0 % 3);
     cc.set_nontrivial(shared_stop || two_frames);
@@ -353,6 +355,41 @@ fn check_revcomp(which: &'static str, s: &[u8], cc: &mut CaseCtx) {
             format!("C20/{}-revcomp/not-reversed-complement", which),
             format!("revcomp = {:?}, expected {:?}", show(&once), show(&want)),
         );
+    }
+    // the argument is "anything that iterates over bytes, double-ended": the same answer is due
+    // for iterators whose size_hint is not exact (filter, flat_map, chain) and for by-value items
+    let routes = guard(|| {
+        let keep_all = |_: &&u8| true;
+        if which == "dna" {
+            vec![
+                ("filter", dna::revcomp(s.iter().filter(keep_all))),
+                ("flat_map", dna::revcomp(s.chunks(2).flat_map(|c| c.iter()))),
+                ("chain", dna::revcomp(s[..s.len() / 2].iter().chain(s[s.len() / 2..].iter()))),
+                ("by-value", dna::revcomp(s.to_vec())),
+                ("cloned-filter", dna::revcomp(s.iter().cloned().filter(|_| true))),
+            ]
+        } else {
+            vec![
+                ("filter", rna::revcomp(s.iter().filter(keep_all))),
+                ("flat_map", rna::revcomp(s.chunks(2).flat_map(|c| c.iter()))),
+                ("chain", rna::revcomp(s[..s.len() / 2].iter().chain(s[s.len() / 2..].iter()))),
+                ("by-value", rna::revcomp(s.to_vec())),
+                ("cloned-filter", rna::revcomp(s.iter().cloned().filter(|_| true))),
+            ]
+        }
+    });
+    match routes {
+        Err(msg) => cc.violation(format!("C20/{}-revcomp/iterator-argument/panic", which), msg),
+        Ok(v) => {
+            for (route, got) in v {
+                if got != want {
+                    cc.violation(
+                        format!("C20/{}-revcomp/iterator-argument/differs-from-slice", which),
+                        format!("revcomp over a {} iterator = {:?}, over the slice {:?}", route, show(&got), show(&want)),
+                    );
+                }
+            }
+        }
     }
 }
 
